@@ -526,7 +526,45 @@ def C20_full_cfg (c : Cfg) (d : Dyn σ ρ) : Prop :=
     -- wave 3: start-up over ANY directory listing, either adapter mode: the constructor does not raise and
     -- reconstructs exactly the readable entries, each of them whatever stands before or after it
     (∀ (compress : Bool) (l : List (Option Persist)),
-      startup compress (loadEntries c (listing l)) = some (l.filterMap id))
+      startup compress (loadEntries c (listing l)) = some (l.filterMap id)) ∧
+    -- wave 6: temporary files left by writes that died (nothing / a torn prefix / complete but not renamed, at any
+    -- requests of any history) never influence an answer: the server with the temporary files answers as the server
+    -- above, which has none — a load reads the committed state file only
+    (∀ ocs : List (Op × Cut), runCT c d (Server.empty, noTmps) ocs = runCC c d Server.empty (ocs.map (·.1)))
+
+theorem readT_good (c : Cfg) (h : c.loadReadsCommitted = true) (s : Server σ) (t : Tmps) (id : Nat) :
+    readT c s t id = readable s.files id := by simp [readT, h]
+
+theorem effT_good (c : Cfg) (h : c.loadReadsCommitted = true) (d : Dyn σ ρ) (s : Server σ) (t : Tmps) (id : Nat) :
+    effT c d s t id = effC c d s id := by simp [effT, effC, readT_good c h]
+
+theorem restartT_good (c : Cfg) (h : c.loadReadsCommitted = true) (d : Dyn σ ρ) (s : Server σ) (t : Tmps) :
+    restartT c d s t = restartC c d s := by simp [restartT, restartC, readT_good c h]
+
+/-- whatever temporary files lie around, one request changes the server and is answered as without them -/
+theorem stepCT_good (c : Cfg) (h : c.loadReadsCommitted = true) (d : Dyn σ ρ) (st : Server σ × Tmps) (oc : Op × Cut) :
+    (stepCT c d st oc).1.1 = (stepCC c d st.1 oc.1).1 ∧ (stepCT c d st oc).2 = (stepCC c d st.1 oc.1).2 := by
+  obtain ⟨s, t⟩ := st
+  obtain ⟨op, cut⟩ := oc
+  cases op with
+  | start id spec => simp only [stepCT, stepCC]; split <;> exact ⟨rfl, rfl⟩
+  | step id stg =>
+    simp only [stepCT, stepCC, effT_good c h]
+    cases effC c d s id <;> exact ⟨rfl, rfl⟩
+  | crash => simp [stepCT, stepCC, restartT_good c h]
+  | damage id => simp [stepCT, stepCC, restartT_good c h]
+  | crashInWrite id stg =>
+    simp only [stepCT, stepCC, effT_good c h, restartT_good c h]
+    cases effC c d s id with
+    | none => exact ⟨rfl, rfl⟩
+    | some i => simp only; split <;> exact ⟨rfl, rfl⟩
+
+theorem runCT_good (c : Cfg) (h : c.loadReadsCommitted = true) (d : Dyn σ ρ) : ∀ (ocs : List (Op × Cut)) (st : Server σ × Tmps),
+    runCT c d st ocs = runCC c d st.1 (ocs.map (·.1))
+  | [], _ => rfl
+  | oc :: ocs, st => by
+    have hs := stepCT_good c h d st oc
+    simp only [runCT, runCC, List.map_cons, hs.2, runCT_good c h d ocs, hs.1]
 
 /-- per-entry load: unreadable entries dropped, every readable one decompressed -/
 theorem startup_perEntry (compress : Bool) : ∀ l : List (Option Persist),
@@ -542,14 +580,19 @@ theorem startup_perEntry (compress : Bool) : ∀ l : List (Option Persist),
 
 theorem C20_full_of_good (c : Cfg) (h : c.good = true) (d : Dyn σ ρ) : C20_full_cfg c d := by
   have hl : c.loadIsPerEntry = true := by
-    simp only [Cfg.good, Bool.and_eq_true] at h; exact h.1.2
+    simp only [Cfg.good, Bool.and_eq_true] at h; exact h.1.1.2
+  have hm : c.loadReadsCommitted = true := by
+    simp only [Cfg.good, Bool.and_eq_true] at h; exact h.2
   have h : c.restoreOK = true := by
-    simp only [Cfg.good, Cfg.restoreOK, Bool.and_eq_true] at h ⊢; exact ⟨h.1.1, h.2⟩
+    simp only [Cfg.good, Cfg.restoreOK, Bool.and_eq_true] at h ⊢; exact ⟨h.1.1.1, h.1.2⟩
   intro ops
   have hold := C20_full_holds d (ops.map (atomize c.atomicWrite))
   obtain ⟨_, hi, _⟩ := run_sim d (ops.map (atomize c.atomicWrite)) _ _ (inv_empty d) (rel_empty d)
   simp only [runCC_good c h, finalCC_good c h, stepCC_good c h, effC_good c h]
-  refine ⟨hold.1, ?_, ?_, ?_, fun compress l => by simp only [loadEntries, hl, if_true]; exact startup_perEntry compress l⟩
+  refine ⟨hold.1, ?_, ?_, ?_, fun compress l => by simp only [loadEntries, hl, if_true]; exact startup_perEntry compress l, ?_⟩
+  rotate_right
+  · intro ocs
+    rw [runCT_good c hm d ocs _, runCC_good c h]
   · intro id st p hp
     simpa [atomize] using hold.2.1 id st p hp
   · intro id st x hx
@@ -568,11 +611,11 @@ theorem map_atomize_false : ∀ ops : List Op, ops.map (atomize false) = ops
   | op :: ops => by cases op <;> simp [atomize, map_atomize_false ops]
 
 /-- the statement of wave 1 is the instance `replayIsComplete, ¬ atomicWrite` -/
-theorem C20_full_of_cfg (d : Dyn σ ρ) (hc : C20_full_cfg ⟨true, false, true, true⟩ d) : C20_full d := by
+theorem C20_full_of_cfg (d : Dyn σ ρ) (hc : C20_full_cfg ⟨true, false, true, true, true⟩ d) : C20_full d := by
   intro ops
   have := hc ops
-  simp only [runCC_good ⟨true, false, true, true⟩ rfl, finalCC_good ⟨true, false, true, true⟩ rfl, stepCC_good ⟨true, false, true, true⟩ rfl,
-    effC_good ⟨true, false, true, true⟩ rfl] at this
+  simp only [runCC_good ⟨true, false, true, true, true⟩ rfl, finalCC_good ⟨true, false, true, true, true⟩ rfl, stepCC_good ⟨true, false, true, true, true⟩ rfl,
+    effC_good ⟨true, false, true, true, true⟩ rfl] at this
   simp only [map_atomize_false, atomize] at this
   exact ⟨this.1, this.2.1, this.2.2.1⟩
 
@@ -589,18 +632,18 @@ are not replayed, the constant given after the restart is applied to them as wel
 theorem C20_witness_partial_replay (c : Cfg) (h : c.replayIsComplete = false) : ¬ C20_full_cfg c lazyDyn := by
   intro hf
   have h4 := (hf lateOps).1 4
-  obtain ⟨r, a, l, o⟩ := c
+  obtain ⟨r, a, l, o, m⟩ := c
   simp only at h
   subst h
-  cases a <;> cases l <;> cases o <;> exact absurd h4 (by decide)
+  cases a <;> cases l <;> cases o <;> cases m <;> exact absurd h4 (by decide)
 
 /-- what the complete replay answers, and what the incomplete one answers -/
-example : (runCC ⟨true, false, true, true⟩ lazyDyn Server.empty lateOps)[4]? = some (.ok [(1024, "1"), (2048, "1"), (3072, "5")]) := by decide
+example : (runCC ⟨true, false, true, true, true⟩ lazyDyn Server.empty lateOps)[4]? = some (.ok [(1024, "1"), (2048, "1"), (3072, "5")]) := by decide
 example : (runU lazyDyn UServer.empty lateOps)[4]? = some (.ok [(1024, "1"), (2048, "1"), (3072, "5")]) := by decide
-example : (runCC ⟨false, false, true, true⟩ lazyDyn Server.empty lateOps)[4]? = some (.ok [(1024, "5"), (2048, "5"), (3072, "5")]) := by decide
+example : (runCC ⟨false, false, true, true, true⟩ lazyDyn Server.empty lateOps)[4]? = some (.ok [(1024, "5"), (2048, "5"), (3072, "5")]) := by decide
 /-- … and why such a defect passes every history WITHOUT settings after the restart: on-demand computation
 gives the same values then -/
-example : runCC ⟨false, false, true, true⟩ lazyDyn Server.empty quietOps = runU lazyDyn UServer.empty quietOps := by decide
+example : runCC ⟨false, false, true, true, true⟩ lazyDyn Server.empty quietOps = runU lazyDyn UServer.empty quietOps := by decide
 
 /-! ### the order of the restored log (wave 4) -/
 
@@ -617,13 +660,43 @@ session replays step 10 before step 9, so the constant set in step 9 is not in f
 theorem C20_witness_sorted_keys (c : Cfg) (h : c.replayOrderPreserved = false) : ¬ C20_full_cfg c lazyDyn := by
   intro hf
   have h4 := (hf digitOps).1 4
-  obtain ⟨r, a, l, o⟩ := c
+  obtain ⟨r, a, l, o, m⟩ := c
   simp only at h
   subst h
-  cases r <;> cases a <;> cases l <;> exact absurd h4 (by decide)
+  cases r <;> cases a <;> cases l <;> cases m <;> exact absurd h4 (by decide)
 
-example : (runCC ⟨true, false, true, false⟩ lazyDyn Server.empty digitOps)[4]? = some (.ok [(9, "1"), (10, "1"), (11, "5")]) := by decide
+example : (runCC ⟨true, false, true, false, true⟩ lazyDyn Server.empty digitOps)[4]? = some (.ok [(9, "1"), (10, "1"), (11, "5")]) := by decide
 example : (runU lazyDyn UServer.empty digitOps)[4]? = some (.ok [(9, "5"), (10, "5"), (11, "5")]) := by decide
+
+/-! ### the temporary file read first (wave 6) -/
+
+def tmpOps (cut : Cut) : List (Op × Cut) :=
+  [(.start 1 lateSpec, .nothing), (.step 1 [(0, "c=5")], .nothing), (.crashInWrite 1 [], cut), (.step 1 [], .nothing)]
+
+/-- "Read the temporary file if there is a non-empty one": after a write that died in the middle the torn temporary
+file is read instead of the intact state file, the load gives up, the instance is gone — although the atomic write
+had kept its previous state. -/
+theorem C20_witness_temp_first (c : Cfg) (h : c.loadReadsCommitted = false) (ha : c.atomicWrite = true) :
+    ¬ C20_full_cfg c histDyn := by
+  intro hf
+  have h6 := (hf []).2.2.2.2.2 (tmpOps .prefix)
+  obtain ⟨r, a, l, o, m⟩ := c
+  simp only at h ha
+  subst h; subst ha
+  cases r <;> cases l <;> cases o <;> exact absurd h6 (by decide)
+
+/-- the committed file is read (clean tree): every cut, the complete-but-not-renamed one included, loses the request
+as a whole and nothing else; "temp first": a torn prefix loses the instance, a complete temporary file makes the
+restored instance one step ahead of what was ever answered -/
+example : ∀ cut, runCT ⟨true, true, true, true, true⟩ histDyn (Server.empty, noTmps) (tmpOps cut)
+    = [.none, .ok [(1024, [(0, "c=5")])], .none, .ok [(1024, [(0, "c=5")]), (2048, [])]] := by
+  intro cut; cases cut <;> decide
+example : runCT ⟨true, true, true, true, false⟩ histDyn (Server.empty, noTmps) (tmpOps .prefix)
+    = [.none, .ok [(1024, [(0, "c=5")])], .none, .invalid] := by decide
+example : runCT ⟨true, true, true, true, false⟩ histDyn (Server.empty, noTmps) (tmpOps .all)
+    = [.none, .ok [(1024, [(0, "c=5")])], .none, .ok [(1024, [(0, "c=5")]), (2048, []), (3072, [])]] := by decide
+example : runCT ⟨true, true, true, true, false⟩ histDyn (Server.empty, noTmps) (tmpOps .nothing)
+    = [.none, .ok [(1024, [(0, "c=5")])], .none, .ok [(1024, [(0, "c=5")]), (2048, [])]] := by decide
 
 /-! ### the skipping load (wave 3) -/
 
@@ -633,7 +706,7 @@ def demoPersist : Persist := { spec := lateSpec, step := 2048, log := [(1024, []
 damaged file listed before a readable one the readable one reaches the constructor with compressed logs: it raises. -/
 theorem C20_witness_skipping_load (c : Cfg) (h : c.loadIsPerEntry = false) (d : Dyn σ ρ) : ¬ C20_full_cfg c d := by
   intro hf
-  have h5 := (hf []).2.2.2.2 true [none, some demoPersist]
+  have h5 := (hf []).2.2.2.2.1 true [none, some demoPersist]
   simp only [loadEntries, h] at h5
   exact absurd h5 (by decide)
 
@@ -659,15 +732,15 @@ theorem noLoss_of_atomic (c : Cfg) (h : c.good = true) (ha : c.atomicWrite = tru
 theorem noLoss_witness (c : Cfg) (ha : c.atomicWrite = false) : ¬ NoLossInWrite c histDyn := by
   intro hf
   have := hf [.start 1 lateSpec, .step 1 []] 1 [] 1 { spec := lateSpec, step := 2048, log := [(1024, [])] }
-  obtain ⟨r, a, l, o⟩ := c
+  obtain ⟨r, a, l, o, m⟩ := c
   simp only at ha
   subst ha
-  cases r <;> cases l <;> cases o <;> exact absurd (this (by decide)) (by decide)
+  cases r <;> cases l <;> cases o <;> cases m <;> exact absurd (this (by decide)) (by decide)
 
 /-- the torn request is retried after the restart and answered as the uninterrupted session answers it -/
-example : runCC ⟨true, true, true, true⟩ histDyn Server.empty [.start 1 lateSpec, .step 1 [(0, "c=5")], .crashInWrite 1 [], .step 1 []]
+example : runCC ⟨true, true, true, true, true⟩ histDyn Server.empty [.start 1 lateSpec, .step 1 [(0, "c=5")], .crashInWrite 1 [], .step 1 []]
     = [.none, .ok [(1024, [(0, "c=5")])], .none, .ok [(1024, [(0, "c=5")]), (2048, [])]] := by decide
-example : runCC ⟨true, false, true, true⟩ histDyn Server.empty [.start 1 lateSpec, .step 1 [(0, "c=5")], .crashInWrite 1 [], .step 1 []]
+example : runCC ⟨true, false, true, true, true⟩ histDyn Server.empty [.start 1 lateSpec, .step 1 [(0, "c=5")], .crashInWrite 1 [], .step 1 []]
     = [.none, .ok [(1024, [(0, "c=5")])], .none, .invalid] := by decide
 
 #print axioms C20_full_holds
@@ -679,6 +752,8 @@ example : runCC ⟨true, false, true, true⟩ histDyn Server.empty [.start 1 lat
 #print axioms stepCC_good
 #print axioms C20_witness_skipping_load
 #print axioms C20_witness_sorted_keys
+#print axioms C20_witness_temp_first
+#print axioms runCT_good
 #print axioms startup_perEntry
 #print axioms C20_continuation
 #print axioms C20_externalised_continues
